@@ -5,7 +5,7 @@ from autobean_refactor import models
 CASES = {'quick': 3000, 'thorough': 60000}
 GATES = {
     'quick': {'evaluations': 8000, 'assign_value': 3000, 'assign_raw_text': 1500, 'assign_indent': 150, 'token_classes_assigned': 12,
-              'multiline_new_text': 300},
+              'multiline_new_text': 300, 'assign_raw_text_respelling': 400},
     'thorough': {'evaluations': 250000, 'token_classes_assigned': 14},
 }
 RULE = ('case = one accepted generated document (stores squeezed into 2..10-token blocks in half of the cases), then 3..10 (thorough ..25) '
@@ -57,17 +57,23 @@ def run_case(col, r, idx):
                     t.value = v
                     col.count('assign_value')
                 elif kind == 'raw_text':
-                    v = values.value_for(r, t)
-                    if v is None:
-                        continue
-                    new = (models.BlockComment.from_value(v, indent=t.indent) if isinstance(t, models.BlockComment)
-                           else type(t).from_value(v)).raw_text
+                    new = values.respell(r, t) if r.random() < 0.4 else None     # same value, other characters
+                    if new is not None and new != t.raw_text:
+                        col.count('assign_raw_text_respelling')
+                    else:
+                        v = values.value_for(r, t)
+                        if v is None:
+                            continue
+                        new = (models.BlockComment.from_value(v, indent=t.indent) if isinstance(t, models.BlockComment)
+                               else type(t).from_value(v)).raw_text
                     desc = ('raw_text', cname, i, new)
+                    assigned = new
                     t.raw_text = new
                     col.count('assign_raw_text')
                 elif kind == 'ws':
                     new = r.choice([' ', '  ', '\t', ' \t']) if isinstance(t, models.Whitespace) else r.choice(['\n', '\r\n', '\n\n'])
                     desc = ('raw_text', cname, i, new)
+                    assigned = new
                     t.raw_text = new
                     col.count('assign_raw_text')
                 else:
@@ -81,6 +87,10 @@ def run_case(col, r, idx):
                 return
             log.append(desc)
             col.ev()
+            if desc[0] == 'raw_text' and t.raw_text != assigned:
+                col.violation(f'raw-text-assignment-not-taken:{cname}', f'assigned raw_text {assigned!r}, the token reads {t.raw_text!r}',
+                              {'text': text, 'lf': lf, 'log': log})
+                return
             if cname not in _classes:
                 _classes.add(cname)
                 col.count('token_class:' + cname)
